@@ -257,6 +257,7 @@ class XCubeMatchingDecoder(BaseDecoder):
 
         # Remove X stabilizer syndrome and keep it for later
         x_syndrome = self.code.extract_x_syndrome(syndrome)
+        syndrome = syndrome.copy()
         syndrome[self.code.x_indices] = 0
         axis_to_int = {'x': 0, 'y': 1, 'z': 2}
 
